@@ -1,8 +1,406 @@
 import RisorModel.Util
-/-! Line-protocol front end of the C08 model (stub until the model exists). -/
+import RisorModel.C08.Model
+/-!
+Line-protocol front end of the C08 model (requests after the leading `C08` field).
+
+Text forms (S-expressions, single spaces):
+  type   bool | (int W) | (uint W) | f32 | f64 | str | time | iface | chan | (named ID T)
+         | (ptr T) | (slice T) | (array N T) | (map T) | (struct T*)            W ∈ 0 8 16 32 64
+  value  (b 0|1) | (i N) | (f BITS) | (s HEX) | (t N) | nil | (p V) | (seq V*) | (m (HEX V)*)
+         | (st V*) | (if T V)
+  object nil | (b 0|1) | (i N) | (f BITS) | (y N) | (s HEX) | (bs HEX) | (fs BITS*) | (t N)
+         | (l O*) | (m (HEX O)*) | (px T V)
+  result panic | error | (ok …)
+
+Requests (reply: impl-result TAB spec-on-go TAB spec-on-impl TAB guard-ids):
+  rt MODE T V GO        GO = panic | error | (ok O BACK), BACK = panic | error | (ok V)
+  global GO             the untyped nil global
+  evalglobal T V GO     risor.Eval("x", WithGlobal("x", v));  GO = panic | error | (ok O)
+  get PT PV I GO        GO = panic | error | (ok O)
+  set PT PV I O GO      GO = panic | error | (ok PV' READ), READ = panic | error | (ok O)
+  call T O GO           GO = panic | error | (ok V O)
+  retry T V I GO        a struct whose first conversion failed, converted again; GO = (ok PV READ)
+-/
 namespace Risor.C08
+open Risor.Util
+
+/-- hardware float operations (opaque to the kernel; used by the oracle only) -/
+def nativeF : FOps where
+  widen b := (Float32.ofBits b.toUInt32).toFloat.toBits.toNat
+  narrow b := (Float.ofBits b.toUInt64).toFloat32.toBits.toNat
+  ofInt i := (Float.ofInt i).toBits.toNat
+  ofInt32 i := (Float32.ofInt i).toBits.toNat
+  trunc b :=
+    let f := Float.ofBits b.toUInt64
+    if f.isNaN || f >= 9223372036854775808.0 || f < -9223372036854775808.0 then -9223372036854775808
+    else f.toInt64.toInt
+  exact b :=
+    let f := Float.ofBits b.toUInt64
+    if f.isFinite && f.floor == f && f < 9223372036854775808.0 && f >= -9223372036854775808.0
+    then some f.toInt64.toInt else none
+
+/-! ### printing -/
+
+def showW : W → String
+  | .w0 => "0" | .w8 => "8" | .w16 => "16" | .w32 => "32" | .w64 => "64"
+
+mutual
+def showTy : GoTy → String
+  | .bool => "bool" | .f32 => "f32" | .f64 => "f64" | .str => "str" | .time => "time"
+  | .iface => "iface" | .chan => "chan"
+  | .int w => "(int " ++ showW w ++ ")"
+  | .uint w => "(uint " ++ showW w ++ ")"
+  | .named id u => "(named " ++ toString id ++ " " ++ showTy u ++ ")"
+  | .ptr t => "(ptr " ++ showTy t ++ ")"
+  | .slice t => "(slice " ++ showTy t ++ ")"
+  | .array n t => "(array " ++ toString n ++ " " ++ showTy t ++ ")"
+  | .mapStr t => "(map " ++ showTy t ++ ")"
+  | .struct fs => "(struct" ++ showFields fs ++ ")"
+def showFields : Fields → String
+  | .nil => ""
+  | .cons t r => " " ++ showTy t ++ showFields r
+end
+
+def showHex (bs : List Nat) : String := toHexField bs
+
+def showKey (k : List Nat) : String := toHexField k
+
+mutual
+def showVal : GoVal → String
+  | .bool b => if b then "(b 1)" else "(b 0)"
+  | .int i => "(i " ++ toString i ++ ")"
+  | .float b => "(f " ++ toString b ++ ")"
+  | .str s => "(s " ++ showHex s ++ ")"
+  | .time t => "(t " ++ toString t ++ ")"
+  | .nilv => "nil"
+  | .ptr x => "(p " ++ showVal x ++ ")"
+  | .seq xs => "(seq" ++ showVals xs ++ ")"
+  | .map ks xs => "(m" ++ showKVs ks xs ++ ")"
+  | .struct xs => "(st" ++ showVals xs ++ ")"
+  | .iface d x => "(if " ++ showTy d ++ " " ++ showVal x ++ ")"
+def showVals : Vals → String
+  | .nil => ""
+  | .cons x r => " " ++ showVal x ++ showVals r
+def showKVs : List (List Nat) → Vals → String
+  | k :: ks, .cons x r => " (" ++ showKey k ++ " " ++ showVal x ++ ")" ++ showKVs ks r
+  | _, _ => ""
+end
+
+def showNums : List Nat → String
+  | [] => ""
+  | n :: r => " " ++ toString n ++ showNums r
+
+mutual
+def showObj : Obj → String
+  | .nil => "nil"
+  | .bool b => if b then "(b 1)" else "(b 0)"
+  | .int i => "(i " ++ toString i ++ ")"
+  | .float b => "(f " ++ toString b ++ ")"
+  | .byte n => "(y " ++ toString n ++ ")"
+  | .str s => "(s " ++ showHex s ++ ")"
+  | .bytes s => "(bs " ++ showHex s ++ ")"
+  | .floats fs => "(fs" ++ showNums fs ++ ")"
+  | .time t => "(t " ++ toString t ++ ")"
+  | .list os => "(l" ++ showObjs os ++ ")"
+  | .map ks os => "(m" ++ showKOs ks os ++ ")"
+  | .proxy pty pv => "(px " ++ showTy pty ++ " " ++ showVal pv ++ ")"
+def showObjs : Objs → String
+  | .nil => ""
+  | .cons o r => " " ++ showObj o ++ showObjs r
+def showKOs : List (List Nat) → Objs → String
+  | k :: ks, .cons o r => " (" ++ showKey k ++ " " ++ showObj o ++ ")" ++ showKOs ks r
+  | _, _ => ""
+end
+
+def showOutcome {α} (f : α → String) : Outcome α → String
+  | .ok a => "(ok " ++ f a ++ ")"
+  | .error => "error"
+  | .panic => "panic"
+
+/-! ### parsing (recursive descent over tokens, with fuel) -/
+
+def tokenize (s : String) : List String :=
+  let step := fun (st : List String × String) (c : Char) =>
+    let (acc, cur) := st
+    let flush := if cur.isEmpty then acc else cur :: acc
+    if c = '(' then ("(" :: flush, "")
+    else if c = ')' then (")" :: flush, "")
+    else if c = ' ' then (flush, "")
+    else (acc, cur.push c)
+  let (acc, cur) := s.toList.foldl step ([], "")
+  (if cur.isEmpty then acc else cur :: acc).reverse
+
+abbrev P (α : Type) := List String → Option (α × List String)
+
+def pW : P W
+  | "0" :: r => some (.w0, r) | "8" :: r => some (.w8, r) | "16" :: r => some (.w16, r)
+  | "32" :: r => some (.w32, r) | "64" :: r => some (.w64, r)
+  | _ => none
+
+def close {α} (x : α) : List String → Option (α × List String)
+  | ")" :: r => some (x, r)
+  | _ => none
+
+mutual
+def pTy : Nat → P GoTy
+  | 0, _ => none
+  | _ + 1, "bool" :: r => some (.bool, r)
+  | _ + 1, "f32" :: r => some (.f32, r)
+  | _ + 1, "f64" :: r => some (.f64, r)
+  | _ + 1, "str" :: r => some (.str, r)
+  | _ + 1, "time" :: r => some (.time, r)
+  | _ + 1, "iface" :: r => some (.iface, r)
+  | _ + 1, "chan" :: r => some (.chan, r)
+  | _ + 1, "(" :: "int" :: r => do let (w, r) ← pW r; close (.int w) r
+  | _ + 1, "(" :: "uint" :: r => do let (w, r) ← pW r; close (.uint w) r
+  | n + 1, "(" :: "named" :: id :: r => do let (t, r) ← pTy n r; close (.named (← id.toNat?) t) r
+  | n + 1, "(" :: "ptr" :: r => do let (t, r) ← pTy n r; close (.ptr t) r
+  | n + 1, "(" :: "slice" :: r => do let (t, r) ← pTy n r; close (.slice t) r
+  | n + 1, "(" :: "array" :: k :: r => do let (t, r) ← pTy n r; close (.array (← k.toNat?) t) r
+  | n + 1, "(" :: "map" :: r => do let (t, r) ← pTy n r; close (.mapStr t) r
+  | n + 1, "(" :: "struct" :: r => do let (fs, r) ← pFields n r; some (.struct fs, r)
+  | _, _ => none
+def pFields : Nat → P Fields
+  | 0, _ => none
+  | _ + 1, ")" :: r => some (.nil, r)
+  | n + 1, r => do let (t, r) ← pTy n r; let (fs, r) ← pFields n r; some (.cons t fs, r)
+end
+
+def pHex (s : String) : Option (List Nat) := fromHex s
+
+mutual
+def pVal : Nat → P GoVal
+  | 0, _ => none
+  | _ + 1, "nil" :: r => some (.nilv, r)
+  | _ + 1, "(" :: "b" :: "1" :: ")" :: r => some (.bool true, r)
+  | _ + 1, "(" :: "b" :: "0" :: ")" :: r => some (.bool false, r)
+  | _ + 1, "(" :: "i" :: x :: ")" :: r => do some (.int (← x.toInt?), r)
+  | _ + 1, "(" :: "f" :: x :: ")" :: r => do some (.float (← x.toNat?), r)
+  | _ + 1, "(" :: "s" :: x :: ")" :: r => do some (.str (← pHex x), r)
+  | _ + 1, "(" :: "t" :: x :: ")" :: r => do some (.time (← x.toInt?), r)
+  | n + 1, "(" :: "p" :: r => do let (x, r) ← pVal n r; close (.ptr x) r
+  | n + 1, "(" :: "seq" :: r => do let (xs, r) ← pVals n r; some (.seq xs, r)
+  | n + 1, "(" :: "st" :: r => do let (xs, r) ← pVals n r; some (.struct xs, r)
+  | n + 1, "(" :: "m" :: r => do let ((ks, xs), r) ← pKVs n r; some (.map ks xs, r)
+  | n + 1, "(" :: "if" :: r => do
+    let (d, r) ← pTy (n + 1) r
+    let (x, r) ← pVal n r
+    close (.iface d x) r
+  | _, _ => none
+def pVals : Nat → P Vals
+  | 0, _ => none
+  | _ + 1, ")" :: r => some (.nil, r)
+  | n + 1, r => do let (x, r) ← pVal n r; let (xs, r) ← pVals n r; some (.cons x xs, r)
+def pKVs : Nat → P (List (List Nat) × Vals)
+  | 0, _ => none
+  | _ + 1, ")" :: r => some (([], .nil), r)
+  | n + 1, "(" :: k :: r => do
+    let k ← pHex k
+    let (x, r) ← pVal n r
+    let (_, r) ← close () r
+    let ((ks, xs), r) ← pKVs n r
+    some ((k :: ks, .cons x xs), r)
+  | _, _ => none
+end
+
+def pNums : Nat → P (List Nat)
+  | 0, _ => none
+  | _ + 1, ")" :: r => some ([], r)
+  | n + 1, x :: r => do let v ← x.toNat?; let (vs, r) ← pNums n r; some (v :: vs, r)
+  | _, _ => none
+
+mutual
+def pObj : Nat → P Obj
+  | 0, _ => none
+  | _ + 1, "nil" :: r => some (.nil, r)
+  | _ + 1, "(" :: "b" :: "1" :: ")" :: r => some (.bool true, r)
+  | _ + 1, "(" :: "b" :: "0" :: ")" :: r => some (.bool false, r)
+  | _ + 1, "(" :: "i" :: x :: ")" :: r => do some (.int (← x.toInt?), r)
+  | _ + 1, "(" :: "f" :: x :: ")" :: r => do some (.float (← x.toNat?), r)
+  | _ + 1, "(" :: "y" :: x :: ")" :: r => do some (.byte (← x.toNat?), r)
+  | _ + 1, "(" :: "s" :: x :: ")" :: r => do some (.str (← pHex x), r)
+  | _ + 1, "(" :: "bs" :: x :: ")" :: r => do some (.bytes (← pHex x), r)
+  | _ + 1, "(" :: "t" :: x :: ")" :: r => do some (.time (← x.toInt?), r)
+  | n + 1, "(" :: "fs" :: r => do let (ns, r) ← pNums n r; some (.floats ns, r)
+  | n + 1, "(" :: "l" :: r => do let (os, r) ← pObjs n r; some (.list os, r)
+  | n + 1, "(" :: "m" :: r => do let ((ks, os), r) ← pKOs n r; some (.map ks os, r)
+  | n + 1, "(" :: "px" :: r => do
+    let (t, r) ← pTy (n + 1) r
+    let (v, r) ← pVal (n + 1) r
+    close (.proxy t v) r
+  | _, _ => none
+def pObjs : Nat → P Objs
+  | 0, _ => none
+  | _ + 1, ")" :: r => some (.nil, r)
+  | n + 1, r => do let (o, r) ← pObj n r; let (os, r) ← pObjs n r; some (.cons o os, r)
+def pKOs : Nat → P (List (List Nat) × Objs)
+  | 0, _ => none
+  | _ + 1, ")" :: r => some (([], .nil), r)
+  | n + 1, "(" :: k :: r => do
+    let k ← pHex k
+    let (o, r) ← pObj n r
+    let (_, r) ← close () r
+    let ((ks, os), r) ← pKOs n r
+    some ((k :: ks, .cons o os), r)
+  | _, _ => none
+end
+
+def parseAll {α} (p : Nat → P α) (s : String) : Option α :=
+  let ts := tokenize s
+  match p (ts.length + 2) ts with
+  | some (x, []) => some x
+  | _ => none
+
+/-- `panic | error | (ok A…)` where the payload parser consumes up to the closing paren -/
+def pOutcome {α} (p : Nat → P α) : Nat → P (Outcome α)
+  | _, "panic" :: r => some (.panic, r)
+  | _, "error" :: r => some (.error, r)
+  | n, "(" :: "ok" :: r => do let (x, r) ← p n r; close (.ok x) r
+  | _, _ => none
+
+def pRtPayload : Nat → P (Obj × Outcome GoVal)
+  | n, r => do
+    let (o, r) ← pObj n r
+    let (b, r) ← pOutcome pVal n r
+    some ((o, b), r)
+
+def pSetPayload : Nat → P (GoVal × Outcome Obj)
+  | n, r => do
+    let (v, r) ← pVal n r
+    let (b, r) ← pOutcome pObj n r
+    some ((v, b), r)
+
+def pCallPayload : Nat → P (GoVal × Obj)
+  | n, r => do
+    let (v, r) ← pVal n r
+    let (o, r) ← pObj n r
+    some ((v, o), r)
+
+def showRt (r : Outcome (Obj × Outcome GoVal)) : String :=
+  showOutcome (fun p => showObj p.1 ++ " " ++ showOutcome showVal p.2) r
+
+def showSet (r : Outcome (GoVal × Outcome Obj)) : String :=
+  showOutcome (fun p => showVal p.1 ++ " " ++ showOutcome showObj p.2) r
+
+def showCall (r : Outcome (GoVal × Obj)) : String :=
+  showOutcome (fun p => showVal p.1 ++ " " ++ showObj p.2) r
+
+def showGuards (gs : List Finding) : String :=
+  match gs.eraseDups with
+  | [] => "-"
+  | g :: r => r.foldl (fun s x => s ++ "," ++ x.id) g.id
+
+def verdict (b : Bool) : String := if b then "ok" else "viol"
+
+def reply (impl : String) (specGo specImpl : Bool) (gs : List Finding) : String :=
+  impl ++ "\t" ++ verdict specGo ++ "\t" ++ verdict specImpl ++ "\t" ++ showGuards gs
+
+def pMode : String → Option Mode
+  | "create" => some .create
+  | "get" => some .get
+  | _ => none
+
+/-- Spec of a field write evaluated on results: the field holds what was written, the other
+    fields are untouched, and reading the field back gives a representation of that same value -/
+def specSet (F : FOps) (pv : GoVal) (i : Nat) (ft : GoTy) (o : Obj)
+    (res : Outcome (GoVal × Outcome Obj)) : Bool :=
+  match res with
+  | .panic => false
+  | .error => true
+  | .ok (pv', rd) => match pv, pv' with
+    | .ptr (.struct xs), .ptr (.struct xs') => match xs'.nth i with
+      | some x => repr F ft x o && decide (xs' = xs.set i x) && specRead F (fieldConvTy ft)
+          (if isStructKind ft then .ptr x else x) rd && (match rd with
+            | .ok _ => true
+            | _ => false)
+      | none => false
+    | _, _ => false
+
+def implSet (F : FOps) (pty : GoTy) (pv : GoVal) (i : Nat) (o : Obj) : Outcome (GoVal × Outcome Obj) :=
+  (setAttr F pty pv i o).map fun pv' => (pv', getAttr F pty pv' i)
+
+def specCall (F : FOps) (pt : GoTy) (o : Obj) (res : Outcome (GoVal × Obj)) : Bool :=
+  match res with
+  | .panic => false
+  | .error => true
+  | .ok (x, r) => repr F pt x o && repr F pt x r
 
 def handle : List String → String
-  | _ => "error\tnot-implemented"
+  | ["rt", m, ty, v, go] =>
+    match pMode m, parseAll pTy ty, parseAll pVal v, parseAll (pOutcome pRtPayload) go with
+    | some m, some ty, some v, some go =>
+      let impl := implRoundTrip nativeF m ty v
+      reply (showRt impl) (specRoundTrip nativeF ty v go) (specRoundTrip nativeF ty v impl)
+        (crossGuards m ty v) ++ "\t" ++ (if hasTy ty v then "typed" else "illtyped")
+    | _, _, _, _ => "error\tbad-request"
+  | ["global", go] =>
+    match parseAll (pOutcome pObj) go with
+    | some go =>
+      let impl := fromGlobal nativeF none
+      reply (showOutcome showObj impl) (decide (go ≠ .panic)) (decide (impl ≠ .panic)) [.nilGlobal]
+    | none => "error\tbad-request"
+  | ["evalglobal", ty, v, go] =>
+    match parseAll pTy ty, parseAll pVal v, parseAll (pOutcome pObj) go with
+    | some ty, some v, some go =>
+      let impl := evalGlobal nativeF (some (ty, v))
+      reply (showOutcome showObj impl) (specRead nativeF ty v go) (specRead nativeF ty v impl)
+        ((if fromGo nativeF .create ty v = .error then [.globalError] else []) ++ crossGuards .create ty v)
+    | _, _, _ => "error\tbad-request"
+  | ["retry", ty, v, i, go] =>
+    -- second conversion of a struct whose first registration failed, then a field read
+    match parseAll pTy ty, parseAll pVal v, i.toNat?, parseAll (pOutcome pSetPayload) go with
+    | some ty, some v, some i, some go =>
+      let impl : Outcome (GoVal × Outcome Obj) :=
+        (fromGoRetry nativeF .create ty v).map fun o => match o with
+          | .proxy pty pv => (pv, getAttrRetry nativeF pty pv i)
+          | _ => (.nilv, .error)
+      let spec := fun (r : Outcome (GoVal × Outcome Obj)) => match r with
+        | .panic => false
+        | .error => true
+        | .ok (_, .ok _) => true
+        | .ok _ => false        -- accepted, but the field cannot be read
+      reply (showSet impl) (spec go) (spec impl) [.registry]
+    | _, _, _, _ => "error\tbad-request"
+  | ["get", pty, pv, i, go] =>
+    match parseAll pTy pty, parseAll pVal pv, i.toNat?, parseAll (pOutcome pObj) go with
+    | some pty, some pv, some i, some go =>
+      let impl := getAttr nativeF pty pv i
+      match proxyField pty i, pv with
+      | some ft, .ptr (.struct xs) =>
+        match xs.nth i with
+        | some x =>
+          let cty := fieldConvTy ft
+          let cv := if isStructKind ft then GoVal.ptr x else x
+          reply (showOutcome showObj impl) (specRead nativeF cty cv go) (specRead nativeF cty cv impl)
+            (crossGuards .get cty cv)
+        | none => "error\tbad-field"
+      | _, _ => reply (showOutcome showObj impl) (decide (go ≠ .panic)) (decide (impl ≠ .panic)) [.proxyType]
+    | _, _, _, _ => "error\tbad-request"
+  | ["set", pty, pv, i, o, go] =>
+    match parseAll pTy pty, parseAll pVal pv, i.toNat?, parseAll pObj o, parseAll (pOutcome pSetPayload) go with
+    | some pty, some pv, some i, some o, some go =>
+      let impl := implSet nativeF pty pv i o
+      match proxyField pty i with
+      | some ft =>
+        let rdGuards := match impl with
+          | .ok (.ptr (.struct xs'), _) => match xs'.nth i with
+            | some x => crossGuards .get (fieldConvTy ft) (if isStructKind ft then .ptr x else x)
+            | none => []
+          | _ => []
+        reply (showSet impl) (specSet nativeF pv i ft o go) (specSet nativeF pv i ft o impl)
+          (setGuards nativeF ft o ++ (if proxyWf pty pv && pv ≠ .nilv then [] else [.proxyType]) ++ rdGuards)
+      | none => "error\tbad-field"
+    | _, _, _, _, _ => "error\tbad-request"
+  | ["call", pt, o, go] =>
+    match parseAll pTy pt, parseAll pObj o, parseAll (pOutcome pCallPayload) go with
+    | some pt, some o, some go =>
+      let impl := callEcho nativeF pt o
+      let rdGuards := match impl with
+        | .ok (x, _) => crossGuards .get pt x
+        | _ => []
+      reply (showCall impl) (specCall nativeF pt o go) (specCall nativeF pt o impl)
+        (callGuards nativeF pt o ++ rdGuards)
+    | _, _, _ => "error\tbad-request"
+  | _ => "error\tunknown-request"
 
 end Risor.C08
